@@ -95,9 +95,13 @@ impl rustc_driver::Callbacks for Cb {
                 )
             })
             .collect();
+        // const fns first (const evaluation steals them), then bodies that define opaque types (`-> impl Trait`,
+        // async fns): type-checking a caller asks for the hidden type, which borrow-checks (and steals) them
         owners.sort_by_key(|d| {
             let k = tcx.def_kind(*d);
-            !(matches!(k, DefKind::Fn | DefKind::AssocFn) && tcx.is_const_fn(d.to_def_id()))
+            let is_const = matches!(k, DefKind::Fn | DefKind::AssocFn) && tcx.is_const_fn(d.to_def_id());
+            let defines_opaque = !tcx.opaque_types_defined_by(*d).is_empty();
+            (!is_const, !defines_opaque)
         });
         let mut bodies: Vec<(LocalDefId, Body<'tcx>)> = Vec::new();
         let mut stolen: Vec<J> = Vec::new();
